@@ -12,15 +12,20 @@ ROOT = os.path.dirname(os.path.dirname(os.path.abspath(__file__)))
 WT = '/tmp/wt_seedeval'
 def sh(cmd, **kw): return subprocess.run(cmd, shell=True, capture_output=True, text=True, **kw)
 def build_and_demo(demo_c, tag):
+    """suite: stock flags (what the repository's baseline runs); demo: SEED_CFLAGS if given (e.g. -funsigned-char)"""
     b = WT + '/_b'
-    shutil.rmtree(b, ignore_errors=True)
     cf = os.environ.get('SEED_CFLAGS', '')
-    r = sh('cmake -G Ninja -S %s -B %s -DCMAKE_BUILD_TYPE=RelWithDebInfo %s && cmake --build %s' % (WT, b, ('-DCMAKE_C_FLAGS=' + cf) if cf else '', b))
+    shutil.rmtree(b, ignore_errors=True)
+    r = sh('cmake -G Ninja -S %s -B %s -DCMAKE_BUILD_TYPE=RelWithDebInfo && cmake --build %s' % (WT, b, b))
     if r.returncode: return {'build': 'FAILED', 'log': (r.stdout + r.stderr)[-800:]}
     t = sh('%s/polyseed-tests | tail -1' % b)
     suite = 'All tests were successful' in t.stdout
+    if cf:
+        shutil.rmtree(b, ignore_errors=True)
+        r = sh('cmake -G Ninja -S %s -B %s -DCMAKE_BUILD_TYPE=RelWithDebInfo -DCMAKE_C_FLAGS=%s && cmake --build %s' % (WT, b, cf, b))
+        if r.returncode: return {'build': 'FAILED', 'log': (r.stdout + r.stderr)[-800:]}
     exe = '/tmp/seed_demo_%s' % tag
-    c = sh('gcc -O1 ' + os.environ.get('SEED_CFLAGS', '') + ' -I%s/include -DPOLYSEED_STATIC %s %s/libpolyseed.a -lutf8proc -lpthread -lm -o %s' % (WT, demo_c, b, exe))
+    c = sh('gcc -O1 ' + cf + ' -I%s/include -DPOLYSEED_STATIC %s %s/libpolyseed.a -lutf8proc -lpthread -lm -o %s' % (WT, demo_c, b, exe))
     if c.returncode: return {'build': 'ok', 'suite_passes': suite, 'demo': 'COMPILE FAILED', 'log': c.stderr[-800:]}
     try:
         d = subprocess.run([exe], capture_output=True, text=True, timeout=300)
